@@ -9,8 +9,8 @@ RULE = ("arbitrary byte strings as file content (uniform bytes, structural-chara
         "per-run timeout; the return code must be success or one of the four parse codes (theorem), every sanitizer report, "
         "crash or timeout is a failing input; values are additionally compared with the model (fidelity); distinct by bytes")
 
-XDELIMS = gens.DELIMS + [b"=:", b"\t", b"[", b"\"", b"#", b"= \t"]
-XCOMMENTS = gens.COMMENTS + [b"# ", b"\"", b"[", b"="]
+XDELIMS = gens.DELIMS + [b"=:", b"\t", b"[", b"\"", b"#", b"= \t", b"\xe4", b"=\xff"]
+XCOMMENTS = gens.COMMENTS + [b"# ", b"\"", b"[", b"=", b"", b"\xe4#", b"#\xff"]
 
 def rfile(rng):
     r = rng.random()
